@@ -21,6 +21,9 @@ const char* property_ids()
 
 std::string describe(const Case& c)
 {
+    if (c.prop == "c11vocab" && c.probe.size() >= 3)
+        return "environment vocabulary: block " + std::to_string(c.probe[0]) + " of all words of up to " +
+               std::to_string(c.probe[1]) + " characters over " + (c.probe[2] ? "64 characters" : "printable ASCII");
     return om::describe(c);
 }
 
@@ -66,6 +69,14 @@ static std::string gen_value(vf::Src& src)
     {
         static const int lens[] = { 255, 256, 257, 1023, 1024, 1025, 4096, 5000 };
         return std::string(static_cast<std::size_t>(lens[src.index(8)]), static_cast<char>('a' + src.irange(0, 3)));
+    }
+    // a text the library's own source mentions (not one that looks like an option)
+    if (!vf::source_literals().empty() && src.range(0, 39) == 39)
+    {
+        std::string w = src.pick(vf::source_literals());
+        w.erase(std::remove(w.begin(), w.end(), '\0'), w.end());
+        if (!w.empty() && w[0] != '-')
+            return w;
     }
     switch (src.weighted({ 70, 20, 10 }))
     {
@@ -195,7 +206,16 @@ static std::string gen_env_word(vf::Src& src, int kind)
             static const std::vector<std::string> near = { "tRUE", "oN",   "yes ", " 1",  "2",
                                                            "truee", "-1",  "T",    "F",   "nO",
                                                            "enable", "00", "01",   "yEs", "WITHout",
-                                                           "on\n", "--yes", "1=1" };
+                                                           "on\n", "--yes", "1=1", "{}",  "a{}", "{}{}",
+                                                           "%s",   "{0}",   "$1" };
+            if (!vf::source_literals().empty() && src.coin(12))
+            {
+                // a word the library's own source text mentions
+                std::string w = src.pick(vf::source_literals());
+                w.erase(std::remove(w.begin(), w.end(), '\0'), w.end());
+                if (!w.empty())
+                    return w;
+            }
             return src.coin(70) ? src.pick(near) : src.bytes_nonul(1, 5);
         }
         }
@@ -836,8 +856,10 @@ static void gen_c11(vf::Src& src, Case& c, bool exhaustive)
         case 2:
             if (!e.short_.empty())
             {
+                // mostly a handful; now and then hundreds, also right at the powers of two
+                static const int many[] = { 100, 255, 256, 257, 300, 511, 512, 513, 600 };
                 st.argv.push_back("-" + std::string(static_cast<std::size_t>(src.coin(90) ? src.irange(2, 4)
-                                                                                         : src.irange(100, 300)),
+                                                                                         : many[src.index(9)]),
                                                     e.short_[0]));
                 break;
             }
@@ -986,10 +1008,138 @@ static void gen_c14(vf::Src& src, Case& c)
     }
 }
 
+// ---- C11: the environment vocabulary, exhaustively over all short words
+// mode "c11vocab<depth>[s]": one case = one block = all words with a fixed first character;
+// alphabet: the 95 printable ASCII characters, or (suffix s) 64 of them
+static const std::string& vocab_alphabet(int id)
+{
+    static const std::string full = [] {
+        std::string a;
+        for (int ch = 32; ch < 127; ++ch)
+            a.push_back(static_cast<char>(ch));
+        return a;
+    }();
+    static const std::string small = "abcdefghijklmnopqrstuvwxyzABCDEFGHIJKLMNOPQRSTUVWXYZ0123456789 _";
+    return id ? small : full;
+}
+
+static std::string check_vocab(const Case& c, vf::Ctx& ctx)
+{
+    if (c.probe.size() < 3)
+        return "";
+    const std::string& A = vocab_alphabet(c.probe[2]);
+    const int depth = std::max(1, std::min(c.probe[1], 5));
+    // depth 5: a block fixes the first two characters (a block stays within the CPU budget of a case)
+    const std::size_t plen = depth >= 5 ? 2 : 1;
+    const std::size_t nblocks = plen == 2 ? A.size() * A.size() : A.size();
+    const std::size_t block = static_cast<std::size_t>(c.probe[0]) % nblocks;
+    ctx.tag("vocab:block");
+    ctx.mark_nontrivial();
+    // the full path (declared toggle, bound variable, parse) for the words of up to two characters
+    nitro::options::parser full("vocab");
+    full.toggle("t").env("NITRO_VERIF_VOCAB");
+    std::uint64_t words = 0, through_parser = 0;
+    std::string w = plen == 2 ? std::string(1, A[block / A.size()]) + A[block % A.size()] : std::string(1, A[block]);
+    std::vector<std::size_t> idx;
+    std::string err;
+    auto one = [&](const std::string& word) {
+        ++words;
+        int want = om::truthy_words().count(word) ? 1 : om::falsy_words().count(word) ? 0 : -1;
+        int got;
+        try
+        {
+            got = nitro::options::toggle::parse_env_value(word) ? 1 : 0;
+        }
+        catch (const nitro::options::parsing_error&)
+        {
+            got = -1;
+        }
+        catch (const std::exception& e)
+        {
+            err = "the environment word " + vf::vis(word) + " is not rejected as a user-input error but with: " + e.what();
+            return;
+        }
+        if (got != want)
+        {
+            err = "the environment word " + vf::vis(word) + " is " +
+                  (got < 0 ? "rejected" : got ? "taken as true" : "taken as false") + ", the documented vocabulary says " +
+                  (want < 0 ? "rejected (it is not a documented word)" : want ? "true" : "false");
+            return;
+        }
+        if (word.size() <= 2)
+        {
+            ++through_parser;
+            ::setenv("NITRO_VERIF_VOCAB", word.c_str(), 1);
+            int pg;
+            try
+            {
+                const char* argv[] = { "prog" };
+                auto r = full.parse(1, argv);
+                pg = static_cast<int>(r.given("t"));
+            }
+            catch (const nitro::options::parsing_error&)
+            {
+                pg = -1;
+            }
+            catch (const std::exception& e)
+            {
+                err = "a toggle whose variable holds " + vf::vis(word) + ": parse() raised another exception type: " + e.what();
+                pg = want;
+            }
+            ::unsetenv("NITRO_VERIF_VOCAB");
+            if (err.empty() && pg != want)
+                err = "a toggle whose variable holds " + vf::vis(word) + " reports " + std::to_string(pg) +
+                      " (-1 = rejected), the documented vocabulary says " + std::to_string(want);
+        }
+    };
+    one(w);
+    for (int len = 1; len + static_cast<int>(plen) <= depth && err.empty(); ++len)
+    {
+        // odometer over all suffixes of this length
+        idx.assign(static_cast<std::size_t>(len), 0);
+        std::string word = w + std::string(static_cast<std::size_t>(len), A[0]);
+        while (err.empty())
+        {
+            one(word);
+            std::size_t pos = idx.size();
+            while (pos > 0)
+            {
+                --pos;
+                if (++idx[pos] < A.size())
+                {
+                    word[plen + pos] = A[idx[pos]];
+                    break;
+                }
+                idx[pos] = 0;
+                word[plen + pos] = A[0];
+                if (pos == 0)
+                {
+                    pos = static_cast<std::size_t>(-1);
+                    break;
+                }
+            }
+            if (pos == static_cast<std::size_t>(-1))
+                break;
+        }
+    }
+    ctx.add("vocab:words", words);
+    ctx.add("vocab:words-through-parse", through_parser);
+    return err;
+}
+
 Case generate(vf::Src& src, const std::string& mode)
 {
     Case c;
     c.prop = mode;
+    if (mode.rfind("c11vocab", 0) == 0)
+    {
+        c.prop = "c11vocab";
+        int depth = mode.size() > 8 ? mode[8] - '0' : 4;
+        int alpha = mode.size() > 9 && mode[9] == 's' ? 1 : 0;
+        int na = static_cast<int>(vocab_alphabet(alpha).size());
+        c.probe = { src.irange(0, (depth >= 5 ? na * na : na) - 1), depth, alpha };
+        return c;
+    }
     if (mode == "c01")
     {
         DeclOpts o;
@@ -1211,6 +1361,8 @@ static std::string check_c02_typed(const Case& c, const Step& st, vf::Ctx& ctx)
 std::string check(const Case& c0, vf::Ctx& ctx)
 {
     Case c = c0;
+    if (c.prop == "c11vocab")
+        return check_vocab(c, ctx);
     for (auto& st : c.steps)
     {
         st.env_state.resize(c.e.size(), 0);
